@@ -150,6 +150,9 @@ Definition op_monitors (cx : Ctx) (pre : State) (op : Op) (accepted : bool) (pos
     ("solv.debt_repaid_from_income", match op with
                                      | OClaimReward _ => negb ((total_debt post <? total_debt pre) && (node_margin post <? node_margin pre))
                                      | _ => true end);
+    (* C03/C20: an ACCEPTED staking transaction leaves nothing in the process-level variable (what a failed or merely
+       simulated one leaves there is finding D10, clause proc.no_residue on the state) *)
+    ("proc.success_leaves_no_residue", match op with OStaking _ => negb accepted || (pg post =? 0) | _ => true end);
     ("frame.rejected_unchanged", negb (is_tx op) || accepted ||
          value_eqb (VL (map snd (enc_state (pre <| pg := pg post |>)))) (VL (map snd (enc_state post)))) ] ++
   match op with
